@@ -43,7 +43,8 @@ def mutate(data, rnd):
     return tlv.from_json_nested(chunks)
 
 
-def resave_event(data, spec, cycles, w):
+def resave_event(data, spec, cycles, w, other=None):
+    """other: bytes of an unrelated file that is loaded (and saved) between the saves of this one."""
     out, o1 = fmt.load(data)
     if o1 is None:
         return None
@@ -51,6 +52,13 @@ def resave_event(data, spec, cycles, w):
     try:
         y = o1.read()
         s1b = fmt.projection.project_any(o1, spec, True)
+        if other is not None:
+            _, oo = fmt.load(other)
+            if oo is not None:
+                try:
+                    oo.read()
+                except Exception:
+                    pass
         again = [o1.read()]
         cur = y
         o2p = None
@@ -78,6 +86,8 @@ def run(ctx):
     cycles = 3 if q else 6
     sources = [(n, d, False) for n, d in fmt.fixtures()]
     cl = gen.classes()
+    for k in range(6 if q else 60):         # consecutive Samplers that use different slots (what one holds must not show up in the other)
+        sources.append(("Sampler-seq%d" % k, api.Synth(gen.rand_module(rnd, cl["Sampler"], spec, depth=0, in_project=False)).read(), False))
     for i in range(30 if q else 600):
         sources.append(("genp%d" % i, gen.rand_project(rnd, spec, depth=rnd.choice([0, 1, 2]), small=q).read(), False))
     for t in sorted(cl):
@@ -116,8 +126,13 @@ def run(ctx):
             sources.append(("slotclaim%d~zeroslots" % i, tlv.join([(cid, bytes(len(pl)) if cid == b"SLnK" else pl) for cid, pl in ch]), True))
     traces = []
     skipped = 0
+    prev = {}
     for name, data, mutated in sources:
-        ev = resave_event(data, spec, cycles, w=False)
+        kind = data[:4]
+        # every other source: an unrelated file of the same container kind is loaded and saved between the saves
+        ev = resave_event(data, spec, cycles, w=False, other=prev.get(kind) if len(traces) % 2 else None)
+        if not mutated:
+            prev[kind] = data
         if ev is None:
             skipped += 1          # not loadable: outside the property's quantifier
             continue
